@@ -28,6 +28,7 @@ func propC01() *Property {
 			{ID: "C01.R1", Title: "no unsanitised flow from remote content to the terminal or to an item's text", Floor: 12, Run: c01R1},
 			{ID: "C01.R2", Title: "SGR parameters are built from constants and validated colours only", Floor: 6, Run: c01R2},
 			{ID: "C01.R3", Title: "escape/control bytes in string literals only in the SGR generator", Floor: 1, Run: c01R3},
+			{ID: "C01.R4", Title: "the sanitiser filters every rune on every path", Floor: 1, Run: scrubIsTotal},
 		},
 	}
 }
@@ -72,6 +73,17 @@ func c01Sources(P *Program, f *Flow) []taintSource {
 					isLibCall(&x.Call, "net", "Dialer", "Dial") || isLibCall(&x.Call, "net", "Dialer", "DialContext") ||
 					isLibCall(&x.Call, "crypto/tls", "Dialer", "DialContext") || isLibCall(&x.Call, "crypto/tls", "", "Client") {
 					out = append(out, taintSource{f.val(x), "network connection", in, fn})
+				}
+				// library decoders re-materialise characters that were written in a
+				// printable encoding (and so passed an earlier scrub): their results
+				// are sources in their own right
+				if what := decoderCall(&x.Call); what != "" {
+					out = append(out, taintSource{f.val(x), what, in, fn})
+					for _, r := range refs(x) {
+						if ex, ok := r.(*ssa.Extract); ok && ex.Index == 0 {
+							out = append(out, taintSource{f.val(ex), what, in, fn})
+						}
+					}
 				}
 				if isLibCall(&x.Call, "os", "", "Open") || isLibCall(&x.Call, "os", "", "OpenFile") || isLibCall(&x.Call, "os", "", "ReadFile") {
 					if pk != "servitor/config" {
@@ -144,6 +156,36 @@ func c01Sources(P *Program, f *Flow) []taintSource {
 		})
 	}
 	return out
+}
+
+// decoderCall: library functions whose result can contain control characters
+// although their input is printable.
+func decoderCall(cc *ssa.CallCommon) string {
+	f := calleeObj(cc)
+	if f == nil || f.Pkg() == nil {
+		return ""
+	}
+	switch f.Pkg().Path() + "." + f.Name() {
+	case "html.UnescapeString":
+		return "character references decoded by html.UnescapeString"
+	case "net/url.PathUnescape", "net/url.QueryUnescape":
+		return "percent-decoded text (" + f.Name() + ")"
+	case "strconv.Unquote", "strconv.UnquoteChar":
+		return "escape sequences decoded by strconv." + f.Name()
+	case "encoding/hex.DecodeString", "encoding/hex.Decode":
+		return "hex-decoded bytes"
+	case "mime.DecodeString", "mime.DecodeHeader":
+		return "RFC 2047 decoded text"
+	}
+	if f.Pkg().Path() == "encoding/base64" || f.Pkg().Path() == "encoding/base32" {
+		if strings.HasPrefix(f.Name(), "Decode") {
+			return "base64/base32-decoded bytes"
+		}
+	}
+	if f.Pkg().Path() == "net/url" && (f.Name() == "Query" || f.Name() == "ParseQuery" || f.Name() == "EscapedFragment") && f.Name() != "EscapedFragment" {
+		return "percent-decoded query values"
+	}
+	return ""
 }
 
 // nodeKnownElement: on every path to block b, node.Type == html.ElementNode is
@@ -453,4 +495,145 @@ func enclosingFuncName(stack []ast.Node) string {
 		}
 	}
 	return "<package>"
+}
+
+// scrubIsTotal (C01.R4 and C17.R6): everything else in C01 and C17 trusts
+// ansi.Scrub to remove control characters. That trust is reduced to a check of
+// its shape: every return of Scrub is the result of strings.Map over (a
+// ReplaceAll of) the input, and the mapping function returns its argument only
+// on paths where the rune is '\n' or unicode.IsControl is known false, and -1
+// otherwise. A shortcut that returns the input untouched is accepted only
+// under the fact that strings.ContainsFunc / IndexFunc with unicode.IsControl
+// found nothing; a hand-written pre-scan (bytes below 0x20, say) is not, since
+// it has to agree with unicode.IsControl on all of Unicode (C1 controls are
+// two bytes in UTF-8).
+func scrubIsTotal(c *Ctx) {
+	P := c.P
+	fn := P.Func("servitor/ansi", "Scrub")
+	name := FuncName(fn)
+	text := fn.Params[0]
+	derivedFromInput := func(v ssa.Value) bool {
+		for i := 0; i < 6; i++ {
+			v = unwrapLoad(v)
+			if v == ssa.Value(text) {
+				return true
+			}
+			call, ok := v.(*ssa.Call)
+			if !ok || !(isLibCall(&call.Call, "strings", "", "ReplaceAll") || isLibCall(&call.Call, "strings", "", "Replace")) {
+				return false
+			}
+			v = call.Call.Args[0]
+		}
+		return false
+	}
+	isControlPred := func(v ssa.Value) bool {
+		f, ok := v.(*ssa.Function)
+		return ok && f.Pkg != nil && f.Pkg.Pkg.Path() == "unicode" && f.Name() == "IsControl"
+	}
+	for _, b := range fn.Blocks {
+		ret, ok := b.Instrs[len(b.Instrs)-1].(*ssa.Return)
+		if !ok {
+			continue
+		}
+		v := unwrapLoad(ret.Results[0])
+		okRet, why := false, "Scrub returns a string that did not pass through the rune filter"
+		var resolve func(v ssa.Value, blk *ssa.BasicBlock, depth int) (bool, string)
+		resolve = func(v ssa.Value, blk *ssa.BasicBlock, depth int) (bool, string) {
+			v = unwrapLoad(v)
+			if ph, isPhi := v.(*ssa.Phi); isPhi && depth < 4 {
+				for k, ed := range ph.Edges {
+					pred := ph.Block().Preds[k]
+					okE, whyE := false, ""
+					withEdge(pred, ph.Block(), func() { okE, whyE = resolve(ed, pred, depth+1) })
+					if !okE {
+						return false, whyE
+					}
+				}
+				return true, ""
+			}
+			if call, isCall := v.(*ssa.Call); isCall && isLibCall(&call.Call, "strings", "", "Map") {
+				if !derivedFromInput(call.Call.Args[1]) {
+					return false, "the filter is applied to something other than the input"
+				}
+				var mf *ssa.Function
+				switch f := call.Call.Args[0].(type) {
+				case *ssa.Function:
+					mf = f
+				case *ssa.MakeClosure:
+					mf = f.Fn.(*ssa.Function)
+				}
+				if mf == nil || len(mf.Params) != 1 {
+					return false, "cannot identify the mapping function of the filter"
+				}
+				return filterDropsControls(mf)
+			}
+			if derivedFromInput(v) {
+				// the input itself: only where a whole-string test with unicode.IsControl found nothing
+				for _, f := range factsOf(fn).At(blk) {
+					if call, isCall := f.Cond.(*ssa.Call); isCall && !f.Truth && isLibCall(&call.Call, "strings", "", "ContainsFunc") && isControlPred(call.Call.Args[1]) && derivedFromInput(call.Call.Args[0]) {
+						return true, ""
+					}
+					if cmp, isCmp := f.Cmp(); isCmp {
+						if call, isCall := cmp.X.(*ssa.Call); isCall && isLibCall(&call.Call, "strings", "", "IndexFunc") && isControlPred(call.Call.Args[1]) && derivedFromInput(call.Call.Args[0]) {
+							if k, isC := constInt(cmp.Y); isC && ((cmp.Op == token.LSS && k == 0) || (cmp.Op == token.EQL && k == -1)) {
+								return true, ""
+							}
+						}
+					}
+				}
+				return false, "the input is returned unfiltered on a path whose only assurance is a hand-written scan: it must agree with unicode.IsControl on every rune (C1 controls U+0080–U+009F are two bytes, none of them below 0x20)"
+			}
+			return false, "Scrub returns a string that did not pass through the rune filter"
+		}
+		okRet, why = resolve(v, b, 0)
+		c.check(okRet, name+"/return", P.InstrPos(ret), name, "the result of the rune filter over the input", why)
+	}
+}
+
+// filterDropsControls: every return of the mapping function is -1, or the rune
+// itself on a path that knows it is '\n' or not a control character.
+func filterDropsControls(mf *ssa.Function) (bool, string) {
+	r := mf.Params[0]
+	for _, b := range mf.Blocks {
+		ret, ok := b.Instrs[len(b.Instrs)-1].(*ssa.Return)
+		if !ok {
+			continue
+		}
+		v := unwrapLoad(ret.Results[0])
+		if k, isC := constInt(v); isC && k == -1 {
+			continue
+		}
+		if v != ssa.Value(r) {
+			if k, isC := constInt(v); isC && k >= 0x20 && k != 0x7f && (k < 0x80 || k > 0x9f) {
+				continue // replaced by a printable constant
+			}
+			return false, "the mapping function returns something other than the rune, a printable constant or -1"
+		}
+		paths, complete := enumeratePaths(mf, b, 256)
+		if !complete {
+			return false, "too many paths in the mapping function"
+		}
+		if b == mf.Blocks[0] {
+			return false, "the mapping function keeps every rune"
+		}
+		for _, pf := range paths {
+			okPath := false
+			for _, f := range pf.facts {
+				if call, isCall := f.Cond.(*ssa.Call); isCall && !f.Truth {
+					if sc := call.Call.StaticCallee(); sc != nil && sc.Pkg != nil && sc.Pkg.Pkg.Path() == "unicode" && sc.Name() == "IsControl" && unwrapLoad(call.Call.Args[0]) == ssa.Value(r) {
+						okPath = true
+					}
+				}
+				if cmp, isCmp := f.Cmp(); isCmp && cmp.Op == token.EQL && unwrapLoad(cmp.X) == ssa.Value(r) {
+					if k, isC := constInt(cmp.Y); isC && k == 10 {
+						okPath = true
+					}
+				}
+			}
+			if !okPath {
+				return false, "the mapping function keeps a rune on a path that has not established that it is a line feed or not a control character"
+			}
+		}
+	}
+	return true, ""
 }
